@@ -492,3 +492,99 @@ func c12sameObject(c *core.Ctx) {
 	}
 	c.Rep.Scenarios++
 }
+
+// c12counterWrap: the process-wide identifier counter passes a multiple of 65536 while
+// requests are in flight: the identifiers on the wire stay non-zero and pairwise
+// distinct, every completion fires once.
+func c12counterWrap(c *core.Ctx) {
+	if c.NShards > 1 && c.Shard != 3%c.NShards {
+		return
+	}
+	for _, start := range []uint64{65533, 65534, 65535, 131070} {
+		start := start
+		name := fmt.Sprintf("client: identifier counter at %d, then pub1 pub2 sub pub1 unsub pub2 in flight together", start)
+		var viol string
+		body := func() {
+			w := NewClientWorld()
+			if !w.Connected("cid") {
+				return
+			}
+			w.Srv.Take()
+			message.VerifSetPacketIDCounter(start)
+			kinds := []string{"pub1", "pub2", "sub", "pub1", "unsub", "pub2"}
+			var reqs []*creq
+			for i, k := range kinds {
+				var r *creq
+				var err error
+				switch k {
+				case "sub":
+					r, err = w.Issue("sub", []string{"s/x"}, []byte{1}, "")
+				case "unsub":
+					r, err = w.Issue("unsub", []string{"s/x"}, nil, "")
+				default:
+					r, err = w.Issue(k, []string{"t"}, nil, fmt.Sprintf("p%d", i))
+				}
+				if err != nil {
+					vsched.Failf("%s failed: %v", k, err)
+					return
+				}
+				reqs = append(reqs, r)
+			}
+			w.Settle()
+			ps := w.Srv.Take()
+			if len(ps) != len(kinds) {
+				vsched.Failf("%d requests, on the wire: %s", len(kinds), Describe(ps))
+				return
+			}
+			seen := map[uint16]int{}
+			for i, p := range ps {
+				if p.ID == 0 {
+					vsched.Failf("request %d (%s) went out with packet identifier 0", i, kinds[i])
+					return
+				}
+				if j, dup := seen[p.ID]; dup {
+					vsched.Failf("requests %d (%s) and %d (%s) are in flight with the same packet identifier %d", j, kinds[j], i, kinds[i], p.ID)
+					return
+				}
+				seen[p.ID] = i
+			}
+			for i, p := range ps {
+				switch kinds[i] {
+				case "pub1":
+					w.ServerSend(&refcodec.Packet{Type: refcodec.PUBACK, ID: p.ID})
+				case "pub2":
+					w.ServerSend(&refcodec.Packet{Type: refcodec.PUBREC, ID: p.ID})
+					w.Settle()
+					w.Srv.Take()
+					w.ServerSend(&refcodec.Packet{Type: refcodec.PUBCOMP, ID: p.ID})
+				case "sub":
+					w.ServerSend(&refcodec.Packet{Type: refcodec.SUBACK, ID: p.ID, Codes: []byte{1}})
+				case "unsub":
+					w.ServerSend(&refcodec.Packet{Type: refcodec.UNSUBACK, ID: p.ID})
+				}
+				w.Settle()
+			}
+			for i, r := range reqs {
+				if r.Completed != 1 {
+					vsched.Failf("request %d (%s, identifier %d) was acknowledged; its completion fired %d times", i, kinds[i], ps[i].ID, r.Completed)
+					return
+				}
+			}
+		}
+		res := explore.RunDefault(body)
+		c.Rep.Executions++
+		c.Rep.States++
+		c.Rep.Transitions += int64(len(res.Points))
+		if res.Status == vsched.StCrash {
+			viol = "a library goroutine panicked: " + firstLine(res.Crash)
+		} else if len(res.Failures) > 0 {
+			viol = res.Failures[0]
+		}
+		if viol != "" {
+			if c.Violate("C12 counter wrap :: "+violClass(viol), core.Replay{Scenario: name, Message: viol}) {
+				return
+			}
+		}
+	}
+	c.Rep.Scenarios++
+}
